@@ -446,8 +446,16 @@ func (in *inliner) eligible1(f *Fn) bool {
 		return false
 	}
 	sig, _ := f.Obj.Type().(*types.Signature)
-	if sig == nil || sig.TypeParams().Len() > 0 || sig.RecvTypeParams().Len() > 0 {
+	if sig == nil || sig.RecvTypeParams().Len() > 0 {
 		return false
+	}
+	if sig.TypeParams().Len() > 0 && f.Decl.Type.Results != nil {
+		// a generic helper is expanded with the type arguments of the call written out; named results are left alone
+		for _, r := range f.Decl.Type.Results.List {
+			if len(r.Names) > 0 {
+				return false
+			}
+		}
 	}
 	if f.Decl.Recv != nil {
 		for _, r := range f.Decl.Recv.List {
@@ -1253,6 +1261,24 @@ func (in *inliner) expand(s callSite) (eds []textEdit, a, b token.Pos, ok bool) 
 		if len(st.Rhs) != 1 || (st.Tok != token.ASSIGN && st.Tok != token.DEFINE) {
 			return nil, 0, 0, false
 		}
+		// `h(x)[k] = v`: the helper's result is the first thing the statement evaluates; with nothing else to call it
+		// is `t := h(x); t[k] = v`
+		if inList && st.Tok == token.ASSIGN && len(st.Lhs) == 1 && nres == 1 && containsNode(st.Lhs[0], call) && leftmost(st.Lhs[0], call) && callFree(st.Rhs[0]) {
+			others := true
+			ast.Inspect(st.Lhs[0], func(n ast.Node) bool {
+				if c, isCall := n.(*ast.CallExpr); isCall && c != call && !containsNode(call, c) {
+					if tv, has := info.Types[c.Fun]; !has || !tv.IsType() {
+						others = false
+					}
+				}
+				return others
+			})
+			if others {
+				hoist, label := b0.build(modeTemps, tmp)
+				txt := hoist + labelled(label) + replaceCall(st.Pos(), st.End(), tmp(0))
+				return []textEdit{{start: in.off(st.Pos()), end: in.off(st.End()), text: txt}}, st.Pos(), st.End(), true
+			}
+		}
 		for _, l := range st.Lhs {
 			if !callFree(l) {
 				return nil, 0, 0, false
@@ -1541,9 +1567,19 @@ type bodyBuilder struct {
 	binds       []string              // "name" of bound parameters, parallel to bindArgs
 	bindArgs    []string
 	localNames  map[string]bool
-	declare     []bool       // direct targets: which results need a declaration (nil: temporaries, all declared)
-	reuse       map[int]bool // direct targets that stand for the helper's named result of the same name
-	spreadEdits []posEdit    // `args...` of a forwarded variadic parameter -> the extra arguments of the call
+	declare     []bool                    // direct targets: which results need a declaration (nil: temporaries, all declared)
+	reuse       map[int]bool              // direct targets that stand for the helper's named result of the same name
+	spreadEdits []posEdit                 // `args...` of a forwarded variadic parameter -> the extra arguments of the call
+	tsubst      map[types.Object]string   // generic helper: type parameter -> text of the call's type argument
+	ptypes      map[*types.Var]types.Type // generic helper: parameter -> its type in the instance
+}
+
+// ptype: the parameter's type at this call (the instantiated type for a generic helper).
+func (b *bodyBuilder) ptype(pv *types.Var) types.Type {
+	if t, ok := b.ptypes[pv]; ok {
+		return t
+	}
+	return pv.Type()
 }
 
 // isNamedResult: the helper's i-th result is named `name` and no other parameter or result has that name.
@@ -1607,8 +1643,55 @@ func (b *bodyBuilder) prepare() bool {
 			return false
 		}
 	}
-	b.nres = b.sig.Results().Len()
 	call := b.s.call
+	if b.sig.TypeParams().Len() > 0 {
+		var fid *ast.Ident
+		switch x := ast.Unparen(call.Fun).(type) {
+		case *ast.Ident:
+			fid = x
+		case *ast.SelectorExpr:
+			fid = x.Sel
+		case *ast.IndexExpr:
+			if id, ok := ast.Unparen(x.X).(*ast.Ident); ok {
+				fid = id
+			} else if se, ok := ast.Unparen(x.X).(*ast.SelectorExpr); ok {
+				fid = se.Sel
+			}
+		case *ast.IndexListExpr:
+			if id, ok := ast.Unparen(x.X).(*ast.Ident); ok {
+				fid = id
+			} else if se, ok := ast.Unparen(x.X).(*ast.SelectorExpr); ok {
+				fid = se.Sel
+			}
+		}
+		if fid == nil {
+			return false
+		}
+		inst, ok := b.info.Instances[fid]
+		if !ok || inst.TypeArgs == nil || inst.TypeArgs.Len() != b.sig.TypeParams().Len() {
+			return false
+		}
+		isig, ok := inst.Type.(*types.Signature)
+		if !ok || isig.Params().Len() != b.sig.Params().Len() {
+			return false
+		}
+		b.tsubst = map[types.Object]string{}
+		for i := 0; i < b.sig.TypeParams().Len(); i++ {
+			tt, ok := b.typeText(inst.TypeArgs.At(i))
+			if !ok {
+				return false
+			}
+			b.tsubst[b.sig.TypeParams().At(i).Obj()] = tt
+		}
+		b.ptypes = map[*types.Var]types.Type{}
+		for i := 0; i < isig.Params().Len(); i++ {
+			if pv := f.Param(i); pv != nil {
+				b.ptypes[pv] = isig.Params().At(i).Type()
+			}
+		}
+		b.sig = isig
+	}
+	b.nres = b.sig.Results().Len()
 	// arguments: receiver first
 	if b.sig.Recv() != nil {
 		sel, ok := ast.Unparen(call.Fun).(*ast.SelectorExpr)
@@ -1721,17 +1804,23 @@ func (b *bodyBuilder) prepare() bool {
 			b.subst[pv] = t
 			continue
 		}
-		tt, ok := b.typeText(pv.Type())
+		tt, ok := b.typeText(b.ptype(pv))
 		if !ok {
 			return false
 		}
 		b.binds = append(b.binds, pv.Name())
 		if _, isLit := ast.Unparen(b.args[i]).(*ast.FuncLit); isLit {
-			if tv, ok := b.info.Types[b.args[i]]; ok && tv.Type != nil && types.Identical(tv.Type, pv.Type()) {
+			if tv, ok := b.info.Types[b.args[i]]; ok && tv.Type != nil && types.Identical(tv.Type, b.ptype(pv)) {
 				// a function literal keeps its spelling: a later round expands its calls
 				b.bindArgs = append(b.bindArgs, b.argText[i])
 				continue
 			}
+		}
+		if tv, ok := b.info.Types[b.args[i]]; ok && tv.Type != nil && tv.Value == nil && !tv.IsNil() && types.Identical(tv.Type, b.ptype(pv)) &&
+			b.argText[i] == b.in.text(b.args[i].Pos(), b.args[i].End()) {
+			// same type already: the bound name is the argument's value, no conversion needed
+			b.bindArgs = append(b.bindArgs, b.argText[i])
+			continue
 		}
 		b.bindArgs = append(b.bindArgs, paren(tt)+paren(b.argText[i]))
 	}
@@ -1809,18 +1898,29 @@ func (b *bodyBuilder) assignedParams() map[*types.Var]bool {
 // substitutable: the argument can stand for the parameter everywhere in the body.
 func (b *bodyBuilder) substitutable(i int, pv *types.Var) bool {
 	arg := ast.Unparen(b.args[i])
-	if b.argText[i] != b.in.text(b.args[i].Pos(), b.args[i].End()) {
-		return false // adjusted receiver (&x / *x)
+	addrOf := false
+	if plain := b.in.text(b.args[i].Pos(), b.args[i].End()); b.argText[i] != plain {
+		// adjusted receiver: x.m() with a pointer receiver is (&x).m(). When the body only selects through the receiver
+		// (s.f, s.m()), x itself can stand for it: x.f is (&x).f
+		if !strings.HasPrefix(b.argText[i], "&") || !b.onlySelectedThrough(pv) {
+			return false
+		}
+		addrOf = true
+		b.argText[i] = plain
 	}
 	tv, ok := b.info.Types[arg]
 	if !ok || tv.Value != nil || tv.IsNil() || tv.Type == nil {
 		return false
 	}
-	if !types.Identical(tv.Type, pv.Type()) && !b.onlyForwardedAsInterface(pv, tv.Type) {
+	if addrOf {
+		if !tv.Addressable() {
+			return false
+		}
+	} else if !types.Identical(tv.Type, b.ptype(pv)) && !b.onlyForwardedAsInterface(pv, tv.Type) {
 		return false
 	}
 	simple := true
-	indexOK := b.usedOnceBeforeCalls(pv)
+	indexOK := b.usedOnceBeforeCalls(pv) || b.stableArg(arg)
 	ast.Inspect(arg, func(n ast.Node) bool {
 		switch x := n.(type) {
 		case nil, *ast.Ident, *ast.SelectorExpr, *ast.ParenExpr, *ast.StarExpr:
@@ -1893,6 +1993,113 @@ func (b *bodyBuilder) substitutable(i int, pv *types.Var) bool {
 		}
 	}
 	return true
+}
+
+// stableArg: the argument (an element or field read with call-free operands) denotes the same thing wherever the helper
+// body uses the parameter: the body assigns nothing rooted at the variables the argument mentions and calls nothing of
+// this module (builtins and functions of other modules cannot reach them).
+func (b *bodyBuilder) stableArg(arg ast.Expr) bool {
+	if !callFree(arg) {
+		return false
+	}
+	if tv, ok := b.info.Types[arg]; !ok || tv.Type == nil {
+		return false
+	} else {
+		switch tv.Type.Underlying().(type) {
+		case *types.Map, *types.Pointer, *types.Chan:
+		default:
+			return false
+		}
+	}
+	roots := map[types.Object]bool{}
+	ast.Inspect(arg, func(n ast.Node) bool {
+		if id, ok := n.(*ast.Ident); ok {
+			if v, isVar := b.info.Uses[id].(*types.Var); isVar && !v.IsField() {
+				roots[v] = true
+			}
+		}
+		return true
+	})
+	if len(roots) == 0 {
+		return false
+	}
+	rootOf := func(e ast.Expr) types.Object {
+		for {
+			switch x := ast.Unparen(e).(type) {
+			case *ast.Ident:
+				return b.info.Uses[x]
+			case *ast.SelectorExpr:
+				e = x.X
+			case *ast.IndexExpr:
+				e = x.X
+			case *ast.StarExpr:
+				e = x.X
+			default:
+				return nil
+			}
+		}
+	}
+	ok := true
+	mod := b.s.callee.Pkg.Types.Path()
+	if i := strings.Index(mod, "/internal/"); i >= 0 {
+		mod = mod[:i]
+	}
+	ast.Inspect(b.s.callee.Body, func(n ast.Node) bool {
+		switch x := n.(type) {
+		case *ast.AssignStmt:
+			for _, l := range x.Lhs {
+				if roots[rootOf(l)] {
+					ok = false
+				}
+			}
+		case *ast.IncDecStmt:
+			if roots[rootOf(x.X)] {
+				ok = false
+			}
+		case *ast.UnaryExpr:
+			if x.Op == token.AND && roots[rootOf(x.X)] {
+				ok = false
+			}
+		case *ast.RangeStmt:
+			if x.Tok == token.ASSIGN {
+				for _, kv := range []ast.Expr{x.Key, x.Value} {
+					if kv != nil && roots[rootOf(kv)] {
+						ok = false
+					}
+				}
+			}
+		case *ast.FuncLit, *ast.GoStmt, *ast.DeferStmt:
+			ok = false
+		case *ast.CallExpr:
+			if tv, has := b.info.Types[x.Fun]; has && (tv.IsType() || tv.IsBuiltin()) {
+				return true
+			}
+			fo, _ := typeutil.Callee(b.info, x).(*types.Func)
+			if fo == nil || fo.Pkg() == nil || fo.Pkg().Path() == mod || strings.HasPrefix(fo.Pkg().Path(), mod+"/") {
+				ok = false
+			}
+		}
+		return ok
+	})
+	return ok
+}
+
+// onlySelectedThrough: every use of the (pointer) parameter in the helper body is the operand of a selector.
+func (b *bodyBuilder) onlySelectedThrough(pv *types.Var) bool {
+	ok, n := true, 0
+	ast.Inspect(b.s.callee.Body, func(m ast.Node) bool {
+		id, isId := m.(*ast.Ident)
+		if !isId || b.info.Uses[id] != types.Object(pv) {
+			return true
+		}
+		n++
+		sel, isSel := b.in.p.parents[id].(*ast.SelectorExpr)
+		if !isSel || sel.X != ast.Expr(id) {
+			ok = false
+		}
+		return true
+	})
+	return ok && n > 0
 }
 
 // onlyForwardedAsInterface: the parameter has an interface type the argument's type implements, and the helper does
@@ -2191,6 +2398,11 @@ func (b *bodyBuilder) render(from, to token.Pos, extra []posEdit) string {
 		}
 		if v, ok := b.info.Uses[id].(*types.Var); ok {
 			if t, ok := b.subst[v]; ok {
+				eds = append(eds, posEdit{id.Pos(), id.End(), t})
+			}
+		}
+		if tn, ok := b.info.Uses[id].(*types.TypeName); ok && b.tsubst != nil {
+			if t, ok := b.tsubst[tn]; ok {
 				eds = append(eds, posEdit{id.Pos(), id.End(), t})
 			}
 		}
